@@ -4,6 +4,7 @@ A template is a Verus source file with `//@@` directives.  Everything outside di
 specification text written for this framework (spec fns, lemmas, opaque declarations).  Directives
 pull *exact source spans* out of /repo on every run and splice contracts / ghost annotations in:
 
+  //@@ include <file>                             the lines of contracts/<file> (shared specification text) in place of the directive
   //@@ type <relpath> :: <item head>             copy of a struct/enum definition (rule D1: attributes dropped)
   //@@ typereplace <rule> `<old>` => `<new>`     exact replacement inside the type copied by the preceding `type` directive
                                                  (rule D8: a field type without Verus model spelled as an opaque struct); once
@@ -27,6 +28,13 @@ pull *exact source spans* out of /repo on every run and splice contracts / ghost
   //@@   insert before|after [#k] `<anchor>` :: <ghost text>
   //@@   insert before|after [#k] `<anchor>` <<  (multi-line ghost text until `//@@   >>`)
   //@@   contract                                lines up to `//@@   endcontract` go between signature and body
+  //@@ end
+  //@@ block <relpath> :: <impl head | -> :: <fn name>   rule B1: a STATEMENT BLOCK of the named function, verified as a function of its free
+  //@@   from `<anchor>`                          variables: the exact text from the (unique) start anchor up to and including the first
+  //@@   to `<anchor>`                            occurrence of the end anchor after it is copied verbatim as the body of a function whose
+  //@@   wrap `<signature>`                       signature is given here (specification text: it names the block's free variables and their
+  //@@   tail `<expr>`                            types) and whose result is <expr> (normally the variable the block binds).  The rest of the
+  //@@   ... (id, rule, replace, insert, contract as for fn)   enclosing function is NOT verified by this directive.
   //@@ end
 
 Obligation names: a trailing `//# NAME` comment on the last line of a contract clause / invariant.
@@ -617,11 +625,20 @@ class FnUnit:
         self.rules, self.replaces, self.inserts, self.contract = [], [], [], []
         self.cutarms = []
         self.splitarms = []
+        self.block = False
+        self.from_ = self.to = self.wrap = self.tail = None
 
 
 def parse_template(text):
     """-> list of ('text', str) | ('type', relpath, head) | ('opaque', name, relpath) | ('fn', FnUnit)"""
-    lines = text.split("\n")
+    # `//@@ include <file>`: the lines of contracts/<file> (specification text shared between units) stand in place of the directive
+    lines = []
+    for ln in text.split("\n"):
+        if ln.strip().startswith("//@@ include "):
+            inc = os.path.join(os.path.dirname(os.path.abspath(__file__)), "..", "contracts", ln.strip()[len("//@@ include "):].strip())
+            lines.extend(open(inc).read().rstrip("\n").split("\n"))
+        else:
+            lines.append(ln)
     out, i = [], 0
     buf = []
 
@@ -654,12 +671,14 @@ def parse_template(text):
             name, relpath = [x.strip() for x in d[7:].split("::", 1)]
             out.append(("opaque", name, relpath))
             i += 1
-        elif d.startswith("fn "):
+        elif d.startswith("fn ") or d.startswith("block "):
             flush()
-            parts = [x.strip() for x in d[3:].split(" :: ")]
+            is_block = d.startswith("block ")
+            parts = [x.strip() for x in d[(6 if is_block else 3):].split(" :: ")]
             if len(parts) != 3:
                 raise TemplateError(f"bad fn directive: {d}")
             fu = FnUnit(parts[0], None if parts[1] == "-" else parts[1], parts[2])
+            fu.block = is_block
             i += 1
             while True:
                 if i >= len(lines):
@@ -675,6 +694,11 @@ def parse_template(text):
                 rest = rest.strip()
                 if key in ("id", "rename", "selftype", "vis", "ret"):
                     setattr(fu, key, rest)
+                elif key in ("from", "to", "wrap", "tail"):
+                    mm = re.match(r"`(.*)`$", rest)
+                    if not mm:
+                        raise TemplateError(f"bad {key}: {rest}")
+                    setattr(fu, "from_" if key == "from" else key, mm.group(1).replace("\\n", "\n"))
                 elif key == "rule":
                     fu.rules.append(rest)
                 elif key in ("replace", "replaceall"):
@@ -789,6 +813,26 @@ def build(template_path, repo_root):
             sp = src(fu.relpath).find_fn(fu.impl_head, fu.name)
             sig, body = split_fn(sp.text)
             drops = []
+            if fu.block:
+                # rule B1: the statement block between two anchors of the function body, as a function of its free variables
+                if not (fu.from_ and fu.to and fu.wrap and fu.tail is not None):
+                    raise TemplateError(f"block {fu.name}: from / to / wrap / tail are required")
+                hits = find_all(body, fu.from_)
+                if len(hits) != 1:
+                    raise LostAnchor(f"{sp.where()} fn {fu.name}: block start anchor `{fu.from_[:60]}` matched {len(hits)} times")
+                b0 = hits[0]
+                b1 = body.find(fu.to, b0 + len(fu.from_))
+                if b1 < 0:
+                    raise LostAnchor(f"{sp.where()} fn {fu.name}: block end anchor `{fu.to[:60]}` not found after the start anchor")
+                b1 += len(fu.to)
+                fn_sp = sp
+                body_off = sp.start + len(sig)
+                sp = Span(sp.path, src(fu.relpath).text, body_off + b0, body_off + b1)
+                if mask(sp.text).count("{") != mask(sp.text).count("}") or mask(sp.text).count("(") != mask(sp.text).count(")"):
+                    raise LostAnchor(f"{sp.where()} fn {fu.name}: the block between the anchors is not bracket-balanced")
+                drops.append(("B1", f"statement block {sp.where()} of fn {fu.name} ({fn_sp.where()}); the rest of the function is not part of this obligation", fu.wrap))
+                sig = fu.wrap + "\n"
+                body = "{\n        " + sp.text + "\n        " + fu.tail + "\n    }"
             # --- rules on the executable text (each recorded) ---
             for ordinal, pattern in fu.splitarms:
                 body, applied = split_arm(body, pattern, ordinal)
